@@ -38,8 +38,24 @@ func (x *Exec) flattenArg(st *State, v Val, t types.Type) []*Term {
 	if v.T == nil {
 		x.fail("spec function argument without scalar value (type %s)", t)
 	}
+	if isOSFile(t) && !x.isFileParam(v.T) {
+		// files are passed to spec functions by their ghost file id: the value of a spec function
+		// over a file depends only on which file it is, not on the handle
+		return []*Term{x.gsel(st, "ghost.fid", v.T)}
+	}
 	return []*Term{v.T}
 }
+
+func isOSFile(t types.Type) bool {
+	p, ok := t.Underlying().(*types.Pointer)
+	if !ok {
+		return false
+	}
+	n, ok := p.Elem().(*types.Named)
+	return ok && n.Obj().Pkg() != nil && n.Obj().Pkg().Path() == "os" && n.Obj().Name() == "File"
+}
+
+func (x *Exec) isFileParam(t *Term) bool { return x.fileParams != nil && x.fileParams[t.id] }
 
 func (x *Exec) flatSorts(t types.Type) []Sort {
 	if isSliceT(t) {
@@ -262,6 +278,12 @@ func (x *Exec) translateSpecBody(si *specInfo, decl *ast.FuncDecl, info *types.I
 		b := c.Bound(p.Name(), x.scalarSort(t))
 		params = append(params, b)
 		st.vars[p] = Val{Typ: t, T: b}
+		if isOSFile(t) {
+			if sx.fileParams == nil {
+				sx.fileParams = map[int]bool{}
+			}
+			sx.fileParams[b.id] = true
+		}
 	}
 	// previously discovered deps are pre-bound so that recursive applications see them
 	for i, d := range si.Deps {
